@@ -69,6 +69,15 @@ def random_base(rng):
         if not r['utils']:
             del r['utils']
         rules.append(r)
+    if rng.random() < 0.6:
+        # constraints that bind further variables: the outcome must not depend on which constraint runs first
+        x_alt = rng.choice([{'all': [{'pattern': '$X'}, {'regex': '^[a-z]+$'}]}, {'pattern': '$X', 'kind': rng.choice(['identifier', 'number'])}, {'pattern': '($X)'}])
+        cons = {'A': {'any': [x_alt, {'pattern': '$Y'}]}, 'B': {'pattern': '$X'}}
+        if rng.random() < 0.5:
+            cons = {'B': cons['A'], 'A': cons['B']}
+        if rng.random() < 0.3:
+            cons['F'] = {'regex': '^(foo|bar)$'}
+        rules.append({'id': 'rc', 'language': 'JavaScript', 'rule': {'pattern': '$F($A, $B)'}, 'constraints': cons, 'message': 'rc $A $B'})
     return rules, globals_
 
 
